@@ -306,8 +306,15 @@ def hyb_line(c):
 def hyb_impl(c):
     import evalreg
     import votelib.evaluate.sequential as seq
-    py = evalreg.to_python('ranked', c['profile'])
     m = c['method']
+    if c.get('names') == 'ints0' and m in ('benham', 'tideman_alt'):
+        # candidates numbered from 0: the first one is a falsy object (a test like `while not winner` instead of
+        # `while winner is None` shows here); the answer is translated back before it is compared
+        import votelib.evaluate.core as core
+        py0 = evalreg.to_python('ranked', c['profile'], name=lambda k: k - 1)
+        res = seq.Benham().evaluate(py0, 1) if m == 'benham' else seq.TidemanAlternative().evaluate(py0, c['n'])
+        return ok([sorted(x + 1 for x in r) if isinstance(r, core.Tie) else r + 1 for r in res])
+    py = evalreg.to_python('ranked', c['profile'])
     if m == 'benham':
         return ok(enc_sel(seq.Benham().evaluate(py, 1)))
     if m == 'tideman_alt':
@@ -428,10 +435,11 @@ def gen_hybrids(rng, count):
                 prof[json_key(b)] = prof.get(json_key(b), 0) + rng.randint(0 if rng.random() < 0.05 else 1, wmax)
         profile = [[json_unkey(b), w] for b, w in prof.items()]
         r = rng.random()
+        names = 'ints0' if rng.random() < 0.3 else 'std'
         if r < 0.42:
-            yield dict(unit='hybrid', method='benham', profile=profile, n=1)
+            yield dict(unit='hybrid', method='benham', profile=profile, n=1, names=names)
         elif r < 0.84:
-            yield dict(unit='hybrid', method='tideman_alt', profile=profile, n=(2 if tiers_as_written() and rng.random() < 0.05 else 1))
+            yield dict(unit='hybrid', method='tideman_alt', profile=profile, n=(2 if tiers_as_written() and rng.random() < 0.05 else 1), names=names)
         elif r < 0.9:
             yield dict(unit='hybrid', method='to_condorcet', profile=profile, n=1)
         elif r < 0.95:
